@@ -9,4 +9,13 @@ def run(prop, tier):
     if prop in ("C10", "C11"):
         from . import game
         return game.check(prop, tier)
+    if prop in ("C07", "C12", "C13", "C14", "C19"):
+        from . import simple
+        if prop == "C14":
+            return simple.check_c14(tier)
+        if prop == "C19":
+            return simple.check_c19(tier)
+        if prop == "C07":
+            return simple.check_c07(tier)
+        return simple.check_text(prop, tier)
     raise C.ToolError("no check registered for %s" % prop)
